@@ -235,7 +235,7 @@ package zygo
 //@ C19 ensures sym != nil ==> sym.name == old(sym.name) && sym.number == old(sym.number)
 
 //@ func (*Zlisp).MakeSymbol
-//@ requires bij(env)
+//@ requires typeinv bij(env)
 //@ C19 modifies env.nextsymbol, map(env.symtable), map(env.revsymtable)
 //@ C19 ensures inv: bij(env)
 //@ C19 ensures result: fresh(r0) && r0.name == name && has(env.symtable, name) && r0.number == env.symtable[name]
@@ -250,7 +250,7 @@ package zygo
 // every symbol that exists when it is generated (and therefore from every
 // earlier generated symbol).
 //@ func (*Zlisp).GenSymbol
-//@ requires bij(env)
+//@ requires typeinv bij(env)
 //@ C19 ensures inv: bij(env)
 //@ C19 ensures fresh-name: let(nm, r0.name, !old(has(env.symtable, nm))) && has(env.symtable, r0.name) && env.symtable[r0.name] == r0.number
 //@ C19 ensures fresh-number: let(num, r0.number, !old(has(env.revsymtable, num)))
@@ -400,3 +400,6 @@ package zygo
 // Builtins (Go functions callable from scripts) run under a deferred recover():
 // their panics become script errors, so they are not part of the panic sweep.
 //@ guard C01 recover SexpFunction.userfun
+
+//@ func (*Parser).ParseExpression
+//@ C01 loop 0 invariant extra >= 1 && extra <= len(lexer.tokens)
